@@ -10,54 +10,58 @@ open GoaktVerif.Model.C45
 /-- a freshly constructed flow / fused stage actor -/
 def FreshMid (nd : Node) : Prop :=
   (∃ c st, nd = .flow c st {}) ∨ (∃ c fs, nd = .fused c fs {}) ∨ (∃ c n, nd = .batch c n {}) ∨
-  (∃ w k b e, nd = .pmap true w k b e {})
+  (∃ o w k b e, nd = .pmap o w k b e {})
 
 theorem FreshMid.ok {nd : Node} (h : FreshMid nd) : middleOK nd = true ∧ MidInv nd [] [] ∧ nd.alive = true := by
-  rcases h with ⟨c, st, rfl⟩ | ⟨c, fs, rfl⟩ | ⟨c, n, rfl⟩ | ⟨w, k, b, e, rfl⟩
+  rcases h with ⟨c, st, rfl⟩ | ⟨c, fs, rfl⟩ | ⟨c, n, rfl⟩ | ⟨o, w, k, b, e, rfl⟩
   · exact ⟨rfl, FlowInv.init st, rfl⟩
   · exact ⟨rfl, FusedInv.init fs, rfl⟩
   · exact ⟨rfl, BatchInv.init n, rfl⟩
-  · exact ⟨rfl, PInv.init k b e, rfl⟩
+  · cases o with
+    | true => exact ⟨rfl, PInv.init k b e, rfl⟩
+    | false => exact ⟨rfl, PInvU.init k b e, rfl⟩
 
 /-- stages inside the composition theorem: flowActor-backed ones and Batch -/
 def Stage.covered : Stage → Bool
   | .pmap _ _ _ _ => false
   | _ => true
 
-theorem freshMid_mkNode (st : Stage) (h : Stage.covered st = true) : FreshMid (mkNode st) := by
-  cases st <;> simp [Stage.covered] at h
+/-- every stage's fresh actor (also the unordered ParallelMap's) -/
+theorem freshMid_mkNode' (st : Stage) : FreshMid (mkNode st) := by
+  cases st
   all_goals first
     | exact Or.inl ⟨_, _, rfl⟩
     | exact Or.inr (Or.inr (Or.inl ⟨_, _, rfl⟩))
-    | exact Or.inr (Or.inr (Or.inr ⟨_, _, _, _, rfl⟩))
+    | exact Or.inr (Or.inr (Or.inr ⟨_, _, _, _, _, rfl⟩))
 
-theorem freshMid_fuseRuns (stages acc : List Stage) (hs : ∀ st ∈ stages, Stage.covered st = true)
-    (ha : ∀ st ∈ acc, Stage.covered st = true) : ∀ nd ∈ fuseRuns stages acc, FreshMid nd := by
+theorem freshMid_mkNode (st : Stage) (_h : Stage.covered st = true) : FreshMid (mkNode st) := freshMid_mkNode' st
+
+theorem freshMid_fuseRuns' (stages acc : List Stage) : ∀ nd ∈ fuseRuns stages acc, FreshMid nd := by
   induction stages generalizing acc with
   | nil =>
     intro nd hnd
     simp only [fuseRuns] at hnd
-    match acc, ha with
-    | [], _ => simp at hnd
-    | [a], ha => simp at hnd; subst hnd; exact freshMid_mkNode a (ha a (by simp))
-    | a :: b :: r, _ => simp at hnd; subst hnd; exact Or.inr (Or.inl ⟨_, _, rfl⟩)
+    match acc with
+    | [] => simp at hnd
+    | [a] => simp at hnd; subst hnd; exact freshMid_mkNode' a
+    | a :: b :: r => simp at hnd; subst hnd; exact Or.inr (Or.inl ⟨_, _, rfl⟩)
   | cons s rest ih =>
     intro nd hnd
-    have hs' : ∀ st ∈ rest, Stage.covered st = true := fun st h => hs st (by simp [h])
     simp only [fuseRuns] at hnd
     split at hnd
-    · exact ih (s :: acc) hs' (fun st h => by
-        rcases List.mem_cons.mp h with rfl | h
-        · exact hs _ (by simp)
-        · exact ha st h) nd hnd
+    · exact ih (s :: acc) nd hnd
     · rcases List.mem_append.mp hnd with h1 | h1
-      · match acc, ha, h1 with
-        | [], _, h1 => simp at h1
-        | [a], ha, h1 => simp at h1; subst h1; exact freshMid_mkNode a (ha a (by simp))
-        | a :: b :: r, _, h1 => simp at h1; subst h1; exact Or.inr (Or.inl ⟨_, _, rfl⟩)
+      · match acc, h1 with
+        | [], h1 => simp at h1
+        | [a], h1 => simp at h1; subst h1; exact freshMid_mkNode' a
+        | a :: b :: r, h1 => simp at h1; subst h1; exact Or.inr (Or.inl ⟨_, _, rfl⟩)
       · rcases List.mem_cons.mp h1 with rfl | h2
-        · exact freshMid_mkNode s (hs s (by simp))
-        · exact ih [] hs' (by simp) nd h2
+        · exact freshMid_mkNode' s
+        · exact ih [] nd h2
+
+theorem freshMid_fuseRuns (stages acc : List Stage) (_hs : ∀ st ∈ stages, Stage.covered st = true)
+    (_ha : ∀ st ∈ acc, Stage.covered st = true) : ∀ nd ∈ fuseRuns stages acc, FreshMid nd :=
+  freshMid_fuseRuns' stages acc
 
 /-- the un-wired network -/
 def rawNet (mids : List Node) (input : List Val) : Net :=
@@ -83,6 +87,21 @@ theorem specM_nil (P : List Val → Prop) (F : SemFn) : SpecM P F [] [] :=
   ⟨rfl, List.nil_prefix, fun _ _ _ => List.nil_prefix, fun h => by simp [termOf] at h,
     fun e h => by simp [termOf] at h⟩
 
+theorem specU_nil (P : List Val → Prop) (k : Int) (bad : Option Int) (e : Err) : SpecU k bad e P [] [] :=
+  ⟨rfl, fun X _ => ⟨okAll k bad e X, by simp [elemsOf]⟩, fun h => by simp [termOf] at h, fun er h => by simp [termOf] at h⟩
+
+theorem nodeSpec_nil (P : List Val → Prop) (nd : Node) : NodeSpec P nd [] [] := by
+  cases nd with
+  | pmap o w k b e s =>
+    cases o with
+    | false => exact specU_nil P k b e
+    | true => exact specM_nil _ _
+  | src s => exact specM_nil _ _
+  | flow c st s => exact specM_nil _ _
+  | fused c fs s => exact specM_nil _ _
+  | batch c n s => exact specM_nil _ _
+  | sink c s => exact specM_nil _ _
+
 theorem GInv.raw (mids : List Node) (input : List Val) (hm : ∀ nd ∈ mids, FreshMid nd)
     (hpar : (∀ X, P X → Homog X) ∨ ∀ nd ∈ mids, isPar nd = false) :
     GInv P input (rawNet mids input) := by
@@ -102,7 +121,7 @@ theorem GInv.raw (mids : List Node) (input : List Val) (hm : ∀ nd ∈ mids, Fr
     obtain ⟨hok, hmi, _⟩ := (hm nd hmem).ok
     have hins : insOf (rawNet mids input) i = [] := by simp [insOf, rawNet_hist]
     rw [hins, rawNet_hist]
-    exact ⟨hok, specM_nil _ _, fun _ => hmi⟩
+    exact ⟨hok, nodeSpec_nil _ _, fun _ => hmi⟩
   · refine ⟨defaultCfg, {}, ?_, ?_⟩
     · rw [hlen]
       have e1 : mids.length + 2 - 1 = mids.length + 1 := by omega
@@ -177,7 +196,9 @@ theorem MidInv.step_wire {nd : Node} {ins outs : List Down} (h : MidInv nd ins o
     simpa [Node.step, Node.alive, ha', batchStep] using h
   | pmap o w k b e s =>
     cases o with
-    | false => exact h.elim
+    | false =>
+      have ha' : s.alive = true := ha
+      simpa [Node.step, Node.alive, ha', pmapStep] using h
     | true =>
       have ha' : s.alive = true := ha
       simpa [Node.step, Node.alive, ha', pmapStep] using h
